@@ -1,10 +1,15 @@
 from typing import List, Type
 
 from sqlalchemy.inspection import inspect
-from sqlalchemy.orm.attributes import InstrumentedAttribute
+from sqlalchemy.orm.attributes import InstrumentedAttribute, QueryableAttribute
 from sqlalchemy.orm.decl_api import DeclarativeMeta
 from sqlalchemy.orm.relationships import RelationshipProperty
-from sqlalchemy.sql.expression import BinaryExpression, ClauseElement, ColumnClause
+from sqlalchemy.sql.expression import (
+    BinaryExpression,
+    ClauseElement,
+    ColumnClause,
+    ColumnElement,
+)
 
 from odata_query import ast, exceptions as ex, utils, visitor
 
@@ -26,10 +31,7 @@ class AstToSqlAlchemyOrmVisitor(common._CommonVisitors, visitor.NodeVisitor):
 
     def visit_Identifier(self, node: ast.Identifier) -> ColumnClause:
         ":meta private:"
-        try:
-            return getattr(self.root_model, node.name)
-        except AttributeError:
-            raise ex.InvalidFieldException(node.name)
+        return self._get_field(self.root_model, node.name)
 
     def visit_Attribute(self, node: ast.Attribute) -> ColumnClause:
         ":meta private:"
@@ -44,10 +46,7 @@ class AstToSqlAlchemyOrmVisitor(common._CommonVisitors, visitor.NodeVisitor):
 
         # We'd like to reference the column on the related class:
         owner_cls = prop_inspect.entity.class_
-        try:
-            return getattr(owner_cls, node.attr)
-        except AttributeError:
-            raise ex.InvalidFieldException(node.attr)
+        return self._get_field(owner_cls, node.attr)
 
     def visit_Compare(self, node: ast.Compare) -> BinaryExpression:
         ":meta private:"
@@ -92,6 +91,19 @@ class AstToSqlAlchemyOrmVisitor(common._CommonVisitors, visitor.NodeVisitor):
             if node.lambda_:
                 subquery_filter = ~subquery_filter
             return ~owner_prop.any(subquery_filter)
+
+    @staticmethod
+    def _get_field(model: Type[DeclarativeMeta], name: str) -> ColumnClause:
+        """
+        Looks up a mapped column or relationship on ``model``. Other attributes
+        of the class (``metadata``, ``__table__``, methods, ...) are not fields.
+
+        :meta private:
+        """
+        field = getattr(model, name, None)
+        if not isinstance(field, (QueryableAttribute, ColumnElement)):
+            raise ex.InvalidFieldException(name)
+        return field
 
     def _maybe_sub_relationship_with_foreign_key(
         self, elem: ClauseElement
